@@ -285,6 +285,15 @@ fn run(ctx: &mut Ctx) {
         stream_stratum(ctx, binder_core(), 1, 5, &mut idx, "asts_binder_core", 0, 0, 5);
     }
     deep_family(ctx);
+    for k in 1..=6usize {
+        idx += 1;
+        if ctx.mine(idx) {
+            let a = counter_reachability(k);
+            let text = refl::pp(&a, refl::MINIMAL);
+            ctx.count("many_round_fixed_points", 1);
+            check_text_big(ctx, TAG, &a, &text);
+        }
+    }
     extreme_constants(ctx);
     crate::cli::cleanup_scratch();
 }
